@@ -300,3 +300,17 @@ Lemma live_removal_skips :
   dispatch_live [mkL false false (ORemove 0); mkL false false ONone; mkL false false ONone] 10 0 [0; 1; 2] 7
   = ([1; 2], [Del 0 (Ev 7); Del 2 (Ev 7)], [], false).
 Proof. vm_compute. reflexivity. Qed.
+
+(* ---------- replays interleaved with events ---------- *)
+Lemma feed_snoc size es e : feed size (es ++ [e]) = push size (feed size es) e.
+Proof. unfold feed. rewrite fold_left_app. reflexivity. Qed.
+
+Lemma brun_spec size ops : forall seen, brun size (feed size seen) ops = bspec size seen ops.
+Proof.
+  induction ops as [|o r IH]; intros seen; [reflexivity|]. destruct o as [n|]; cbn [brun bspec].
+  - rewrite <- feed_snoc. apply IH.
+  - rewrite IH, feed_spec. reflexivity.
+Qed.
+
+Lemma brun_spec0 size ops : brun size [] ops = bspec size [] ops.
+Proof. exact (brun_spec size ops []). Qed.
